@@ -19,7 +19,7 @@ SKIP = ("print", "logger", "_print", "verbose", "logging")
 
 
 def job(j):
-    rel, qual, op, what = j
+    rel, qual, op, what, kk = j
     d = Path(tempfile.mkdtemp(prefix="xsa_surv_"))
     try:
         subprocess.check_call(f"cd {REPO} && git ls-files -z | xargs -0 cp --parents -t {d}", shell=True)
@@ -32,7 +32,7 @@ def job(j):
             return j, "gone"
         hit = None
         for o, desc, k, how in mutants_of(fn):
-            if o == op and desc == what:
+            if o == op and desc == what and (kk is None or k == kk):
                 hit = (k, how)
                 break
         if hit is None or not apply(fn, *hit):
@@ -61,13 +61,13 @@ def main():
     ap.add_argument("--out", default=str(VERIF / "out" / "survivors_vs_suite.json"))
     a = ap.parse_args()
     rows = json.loads(Path(a.inp).read_text())
-    jobs = [(r["file"], r["function"], r["operator"], r["what"]) for r in rows
+    jobs = [(r["file"], r["function"], r["operator"], r["what"], r.get("k")) for r in rows
             if not r["killed_by"] and not r["cannot_decide"] and not any(k in r["what"] for k in SKIP) and a.filter in (r["file"] + r["function"])]
     print(len(jobs), "surviving mutants to run against the suite")
     res = []
     with ThreadPoolExecutor(a.jobs) as ex:
         for j, verdict in ex.map(job, jobs):
-            res.append({"file": j[0], "function": j[1], "operator": j[2], "what": j[3], "suite": verdict})
+            res.append({"file": j[0], "function": j[1], "operator": j[2], "what": j[3], "k": j[4], "suite": verdict})
     Path(a.out).write_text(json.dumps(res, indent=1))
     ok = [r for r in res if r["suite"] == "suite-passes"]
     print(f"{len(ok)} of {len(res)} also pass the test suite:")
